@@ -73,13 +73,13 @@ PROPS["C14"] = dict(jobs=lambda j: j.startswith("effects:"), obl=lambda o: "C14"
 PROPS["C15"] = dict(jobs=None, obl=None, bounded="c15", level="other", design="4 C01/C15",
                     technique="bounded stand-in: 7 failure points x re-assignment style x one/two failures x follow-up edits; model after recovery vs before the failure (values, inputs, graph links) and vs a fresh build after a further edit")
 
-PROPS["C05"] = dict(jobs=lambda j: j.startswith("effects:"), obl=lambda o: "C05" in o["name"] or "effect profile" in o["name"], bounded="c05", level="other", design="4 C05/C06",
-                    technique="bounded stand-in: dated simulations (numeric / link / list / mixed / invalid / failing change lists x 6 dates x toggle sequences) on real systems; identities, values, links, reverse links and graph edge sets compared with the baseline")
+PROPS["C05"] = dict(jobs=lambda j: j.startswith("effects:") or j.startswith("graph:"), obl=lambda o: "C05" in o["name"] or "effect profile" in o["name"] or "explainable_object_base_class.ExplainableObject." in o["function"] and o["kind"] != "cover", bounded="c05", level="other", design="4 C05/C06",
+                    technique="P: effect order of ModelingUpdate.__init__ and the graph layer used when values are swapped in and out (add_child / remove_child / set_modeling_obj_container contracts); bounded stand-in: dated simulations (numeric / link / list / mixed / invalid / failing change lists x 6 dates x toggle sequences) on real systems; identities, values, links, reverse links and graph edge sets compared with the baseline")
 PROPS["C06"] = dict(jobs=None, obl=None, bounded="c06", level="other", design="4 C05/C06",
                     technique="bounded stand-in: first-hour simulation vs really applying the changes on a twin system; no simulated hour before the date; twins paired both ways; bad dates refused")
 
-PROPS["C08"] = dict(jobs=ANY, obl=lambda o: any(x in o["name"] for x in ("recorded ancestors", "_parent recorded", "completeness")) or "optimize_attr_updates_chain" in o["function"], bounded="c08", level="other", design="4 C08",
-                    technique="P: every operator / helper contract pins the parents recorded on its result and the recorded-ancestor set (what the dependency edges are built from); B: graph consistency (both ends, held values only, acyclic) as built / after edits / after simulations and toggles; completeness by perturbing every quantity input and rebuilding; update order of every input")
+PROPS["C08"] = dict(jobs=ANY, obl=lambda o: any(x in o["name"] for x in ("recorded ancestors", "_parent recorded", "completeness")) or "optimize_attr_updates_chain" in o["function"] or (o["function"].split(" ")[0].endswith(("add_child_to_direct_children_with_id", "remove_child_from_direct_children_with_id", "ExplainableObject.set_modeling_obj_container")) and o["kind"] != "cover"), bounded="c08", level="other", design="4 C08",
+                    technique="P: every operator / helper contract pins the parents recorded on its result and the recorded-ancestor set (what the dependency edges are built from); the graph layer itself (add_child / remove_child refine set insertion / removal on a duplicate-free id list; set_modeling_obj_container, checked against those contracts over a ghost heap, leaves both ends of every edge in agreement); B: graph consistency (both ends, held values only, acyclic) as built / after edits / after simulations and toggles; completeness by perturbing every quantity input and rebuilding; update order of every input")
 
 PROPS["C11"] = dict(jobs=None, obl=None, bounded="c11", level="other", design="4 C11",
                     technique="bounded stand-in: convert_to_utc on series straddling the offset transitions of IANA zones vs an oracle computed from the pytz transition tables (total, strictly increasing unique index, placement at local time minus offset in force, skipped/repeated hours merged next to the transition)")
